@@ -43,7 +43,8 @@ LEVEL_TEXT = (
     "evaluation is true (operands CPython skips are not executed); (c) block structure, for ALL statement trees (if/while/for/break/continue/return/assignments, arbitrarily nested): every jump emitted "
     "targets an existing block; the only predecessors of a for-loop's test block are the block in front of the loop and the loop's increment "
     "block, in the order of the phi inputs (phi inputs = predecessors); the increment block holds exactly `i+1` feeding the phi and is the "
-    "`continue` target while the body is generated. PARTIAL: `/` on two ints is lowered to the truncating integer division (CPython: float) - "
+    "`continue` target while the body is generated; the end expression of range() is emitted into the block in front of the loop and the test block "
+    "only compares the phi with that value (trip count fixed at loop entry). PARTIAL: `/` on two ints is lowered to the truncating integer division (CPython: float) - "
     "open finding, theorem only for exact quotients; statement *semantics* (that the generated if/while/for control flow and the stores/loads of "
     "locals compute what the Python program computes), floats, calls are not proved, only searched by differential execution against CPython."
 )
@@ -68,6 +69,7 @@ TRUSTED = [
     "CPython 3.12 `exec` as the oracle; the instrumented copy of each source (every int operation wrapped in a 64-bit range check) decides whether a case is inside the property's domain",
 ]
 ASSUMPTIONS = [
+    "every in-process execution of compiled code has a CPU budget of 3 s (SIGVTALRM), the front-end call and the ir_to_python translation 30 s, Spec.IR runs have fuel, the CPython oracle an iteration limit: a compiled program that is still running when CPython has returned is reported as <construct>:does-not-terminate, the check never waits for it",
     "all integer values of an execution (arguments, literals, intermediate results, loop counters) lie within signed 64 bits and CPython raises no exception; other cases are skipped and counted",
     "generated programs assign every variable before use on every path, keep one type per variable, and do not use `/` on ints (open finding, exercised by the operator corpus only)",
     "memory of distinct locals does not overlap (each local is one 8-byte Alloc)",
